@@ -79,10 +79,22 @@ class Ctx:
             suppress_health_check=[h for h in HealthCheck if h.name != "filter_too_much"],
         )
         test = hypothesis.seed(self.seed_for(name or self.sub))(st(given(*strategies, **kwstrategies)(fn)))
+        from . import LAST_VIOLATION
+        LAST_VIOLATION[0] = None
         try:
             test()
         except PropertyViolation:
             raise
+        except hypothesis.errors.Flaky as e:
+            v = LAST_VIOLATION[0]
+            if v is not None:
+                # The harness is a pure function of the drawn case.  A case whose oracle failed against the real code
+                # but passes when Hypothesis re-runs it in the same process means the code under test carries state
+                # from one call to the next: the observed violation stands (it is reported with its case).
+                raise PropertyViolation(v.bucket + "/depends-on-earlier-calls",
+                                        "%s (not reproduced when the same case is re-run in the same process: %s)" % (
+                                            v.message, type(e).__name__), v.case)
+            raise HarnessError("hypothesis: %s: %s" % (type(e).__name__, e))
         except hypothesis.errors.HypothesisException as e:
             raise HarnessError("hypothesis: %s: %s" % (type(e).__name__, e))
 
